@@ -4,7 +4,8 @@
    (lists of members in type-hint order, any length), all input dicts and all allocation counters. *)
 From Coq Require Import List String ZArith Bool Arith.
 From Verif Require Import Bind BindProofs PyK BindK4.
-From VerifGen Require K4.
+From Verif Require OptProj K17Proofs BindK17.
+From VerifGen Require K4 K17.
 Import ListNotations.
 Open Scope string_scope.
 Open Scope nat_scope.
@@ -263,3 +264,117 @@ Example C07_invalid_values :
   decode intconv false true invalids [("q", PFloat 4); ("y", PNone)] 0 =
     OOk [("q", Some (PInt 4)); ("x", Some (PInt 0)); ("y", Some PNone)] 0.
 Proof. repeat split; reflexivity. Qed.
+
+(* ---- (T) the nullability test of the field block is the translated source (kernel K17 =
+        CodeBuilder.is_field_nullable, regenerated every run): for a member whose m_nullty is what the
+        translated code computes from the shape t of its type hint, the translated code applied to t and to
+        the default the builder sees returns exactly Bind.nullable ---- *)
+Theorem C07_nullable_is_code : forall (m: member) (t: OptProj.fty),
+  m_nullty m = BindK17.nullty_code t ->
+  K17.is_field_nullable (K17Proofs.enc_default (BindK17.odflt (seen_default m))) (K17Proofs.enc_fty t)
+  = Ok (KBool (nullable m)).
+Proof. exact BindK17.nullable_is_code. Qed.
+Print Assumptions C07_nullable_is_code.
+
+(* Annotated[...] and Final[...] are seen through, a PEP 695 alias / NewType / bound TypeVar is not *)
+Example C07_nullable_shapes :
+  BindK17.nullty_code (OptProj.TyAnnotated (OptProj.TyFinal OptProj.TyOptional)) = true /\
+  BindK17.nullty_code OptProj.TyUnionNone = true /\ BindK17.nullty_code OptProj.TyAny = true /\
+  BindK17.nullty_code (OptProj.TyAnnotated OptProj.TyPlain) = false /\ BindK17.nullty_code OptProj.TyPlain = false.
+Proof. repeat split; reflexivity. Qed.
+
+(* ---- (T) defaults and argument assembly are the translated source (kernel K107a = CodeBuilder.get_field_default,
+        the in_kwargs flag of FieldUnpackerCodeBlockBuilder.build, and the bodies of the two loops of
+        _add_unpack_method_lines that skip init=False fields, detect kw_only and sort the fields into
+        pos_args / kw_args / **kwargs; regenerated every run) ---- *)
+From Verif Require BindK107a.
+From VerifGen Require K107a.
+
+(* the default the field block works with: get_field_default run on the Field the builder finds (or on the class
+   namespace) is MISSING exactly when the model says "no default", None exactly when the model says "default None";
+   the block is passed through **kwargs exactly when it has a default *)
+Theorem C07_default_is_code : forall m,
+  (exists v,
+     K107a.get_field_default (BindK107a.enc_field (dc_field m)) (BindK107a.enc_ns (m_ns m)) KNone (KBool false) = Ok v
+     /\ k_is v KMissing = negb (has_dflt (seen_default m))
+     /\ k_is v KNone = dflt_is_none (seen_default m))
+  /\ BindK107a.code_in_kwargs m = Ok (KBool (has_dflt (seen_default m))).
+Proof. intros m. split; [exact (BindK107a.default_is_code m)|exact (BindK107a.in_kwargs_is_code m)]. Qed.
+Print Assumptions C07_default_is_code.
+
+(* the translated loops, run over ANY layout with unique member names the way _add_unpack_method_lines runs them
+   (BindK107a.code_assembly), compute: **kwargs is passed iff some field has a default; kw_args / pos_args are, in
+   order, the names that BindK107a.passing_of marks keyword / positional; that marking is the one of the model's
+   generated from_dict (Bind.plan): whenever no field block raises, the non-skipped fields are passed exactly so.
+   `st` is the variant of the in_kwargs flag that the translated loop body implements: sticky (true: the code as
+   it is) or reset per block (false: seeded change C07-1); both decode identically on the domain, so an equivalent
+   rewrite of that flag keeps this theorem provable while any other change of the loops breaks it *)
+Theorem C07_assembly_is_code : exists st,
+  (forall L, nodupb (map m_name L) = true ->
+     BindK107a.code_assembly L =
+     Ok (KTuple [KBool (existsb (fun x => BindK107a.is_kwargs (snd x)) (BindK107a.passing_of st L));
+                 BindK107a.enc_names (BindK107a.names_with BindK107a.is_kw (BindK107a.passing_of st L));
+                 BindK107a.enc_names (BindK107a.names_with BindK107a.is_pos (BindK107a.passing_of st L))]))
+  /\ (forall conv nba L d pl,
+        plan conv nba st L false false d = inr pl ->
+        filter (fun x => negb (BindK107a.is_skip (snd x))) (map (fun t => (fst (fst t), snd (fst t))) pl)
+        = BindK107a.passing_of st L)
+  /\ (forall conv nba L d c, layout_ok L = true -> view_ok L = true ->
+        decode conv nba st L d c = decode conv nba true L d c).
+Proof. exact BindK107a.assembly_is_code. Qed.
+Print Assumptions C07_assembly_is_code.
+
+(* one pass of the translated assembly loop body, as a statement about the source: a block with a default goes to
+   **kwargs (neither list grows), otherwise the name is appended to kw_args iff it is in kw_only_fields or the
+   flag is set (variant st), else to pos_args *)
+Theorem C07_arg_step_is_code : exists st, BindK107a.arg_step_spec st.
+Proof. exact BindK107a.arg_step_is_code. Qed.
+Print Assumptions C07_arg_step_is_code.
+
+(* one pass of the translated kw_only detection: an init=False field is dropped and leaves the state alone; a kept
+   field is keyword-only iff missing_kw_only is already set, or its Field is missing / has no processed kw_only
+   (which also sets missing_kw_only for all later fields), or kw_only is true *)
+Theorem C07_kw_step_is_code : forall m mk S,
+  K107a.kw_step (BindK107a.enc_field (dc_field m)) (KStr (m_name m)) (KBool mk) (BindK107a.enc_names S) =
+  let kwo := mk || match seen_kw m with Some b => b | None => true end in
+  let mk' := mk || match seen_kw m with None => true | Some _ => false end in
+  Ok (KTuple [KBool (seen_init m);
+              KBool (if seen_init m then mk' else mk);
+              BindK107a.enc_names (if seen_init m && kwo && negb (mem (m_name m) S) then S ++ [m_name m] else S)]).
+Proof. exact BindK107a.kw_step_is_code. Qed.
+Print Assumptions C07_kw_step_is_code.
+
+(* non-vacuity: required a, init=False e, kw_only b, defaulted c, kw_only d -> cls(__a, b=__b, d=__d, **kwargs) *)
+Example C07_assembly_example :
+  BindK107a.code_assembly BindK107a.ex_layout
+  = Ok (KTuple [KBool true; BindK107a.enc_names ["b"; "d"]; BindK107a.enc_names ["a"]])
+  /\ BindK107a.names_with BindK107a.is_kwargs (BindK107a.passing_of true BindK107a.ex_layout) = ["c"].
+Proof. split; vm_compute; reflexivity. Qed.
+
+(* ---- (T) the field block is the translated source (kernel K107b = FieldUnpackerCodeBlockBuilder.build with
+        _set_value / _try_set_value, regenerated every run, returning the emitted lines as a tree of the templates of
+        the source's string literals): the block that the translated build emits for a member - for its default as
+        get_field_default returns it (K107a), its nullability (K17), identity or converting unpacker expression, alias
+        and allow_deserialization_not_by_alias - run by the interpreter of the emitted Python subset
+        (BindK107b.run: reads of d, tests against MISSING / None, raise MissingField, try / bare except ->
+        InvalidFieldValue, assignment to __f / kwargs['f']) does exactly what Bind.field_block says, for every member
+        and every input.  build is run on two uninterpreted names (BindK107b.FNAME / ALIAS); a read under them is the
+        lookup of the member's name / alias ---- *)
+From Verif Require BindK107b.
+Theorem C07_field_block_is_code : forall conv nba m d,
+  BindK107b.run_block conv nba m d = Some (field_block conv nba m d).
+Proof. exact BindK107b.field_block_is_code. Qed.
+Print Assumptions C07_field_block_is_code.
+
+(* non-vacuity: the emitted block of a nullable, converting field with default 0 read under alias or name
+   (allow_deserialization_not_by_alias) has 3 top-level statements; null under the alias key wins over the name key
+   and over the default; an absent key leaves kwargs alone; a value the unpacker rejects raises InvalidFieldValue *)
+Example C07_field_block_example :
+  let run gn ga := BindK107b.run_block_of true true false true (DVal (PInt 0)) gn ga
+                     (fun v => match v with PInt z => Some (PInt z) | _ => None end) in
+  (exists b, BindK107b.code_block_of true true false true (DVal (PInt 0)) = Ok (KList b) /\ List.length b = 3)
+  /\ run (Some (PInt 7)) (Some PNone) = Some (FbSet PNone)
+  /\ run (Some (PInt 7)) None = Some (FbSet (PInt 7))
+  /\ run None None = Some FbSkip
+  /\ run None (Some (PStr "x")) = Some FbInvalid.
+Proof. cbv zeta. split; [eexists; split; vm_compute; reflexivity|]. repeat split; vm_compute; reflexivity. Qed.
